@@ -520,6 +520,14 @@ class Interp:
             for c in facts_for(coll, elem):
                 ctx.assume(c)
             pre = {k: (list(v) if isinstance(v, list) else v) for k, v in frame.locals.items()}
+            snap = {}
+            for v in list(frame.locals.values()) + [elem] + (list(elem) if isinstance(elem, (list, tuple)) else []):
+                if isinstance(v, MDict) and id(v) not in snap:
+                    snap[id(v)] = [list(e) for e in v.entries]
+                    for _, vv in v.entries:
+                        if isinstance(vv, MDict) and id(vv) not in snap:
+                            snap[id(vv)] = [list(e) for e in vv.entries]
+            pre["$entries"] = snap
             self.assign(st.target, elem, frame)
             try:
                 self.exec_block(st.body, frame)
